@@ -74,6 +74,7 @@ def gen_cases(seed, chunk, n, tier):
         kind = rng.choice(["norm", "norm", "invol", "net"])
         pending = rng.random() < 0.5
         orc = None
+        dual_label = False
         meta = dict(sym=sym, static=static, kind=kind, dtype=dtype, pending=pending)
         if kind in ("norm", "invol"):
             allket = rng.random() < 0.35
@@ -94,8 +95,14 @@ def gen_cases(seed, chunk, n, tier):
                     env = {"y": y, "z": z}
                     pre = [{"out": ["x"], "op": "tensordot", "in": ["y", "z"], "params": {"axes": 0}}]
                     x = sr.tensordot(y, z, 0, preserve_array=True)
+            bra_type = rng.random() < 0.2 and not pre
+            if bra_type:
+                # a bra-type array: the conjugate of a generated one (its label, if any, is a dual one)
+                x = x.conj()
+                env = {"x": x}
             mixed = len({ix.dual for ix in x.indices}) > 1
-            meta.update(parity=int(x.parity), allket=allket, mixed=mixed)
+            dual_label = any(o.dual for o in x.oddpos)
+            meta.update(parity=int(x.parity), allket=allket, mixed=mixed, bra_type=bra_type)
             nontrivial = mixed or bool(x.parity)
             if kind == "norm":
                 pd = (not allket) or rng.random() < 0.5
@@ -231,8 +238,11 @@ def gen_cases(seed, chunk, n, tier):
                     orc = f"<psi|psi> along this route = {got}, sum |psi|^2 = {want}"
                 elif env2[final].oddpos:
                     orc = f"labels {env2[final].oddpos} remain on the network norm"
+        trig = []
+        if kind == "norm" and orc and orc.startswith("<x|x> via") and x.parity and dual_label:
+            trig = ["odd_dual_label"]
         out.append(dict(case=_mk_case(env, steps), impl=stream.strip_py(res), oracle=orc, meta=meta,
-                        nontrivial=bool(nontrivial), op=kind, triggers=[]))
+                        nontrivial=bool(nontrivial), op=kind, triggers=trig))
     return out
 
 
